@@ -179,7 +179,10 @@ def run_lines(exe_cmd, lines, timeout=600, cwd=None):
     data = "\n".join(lines) + "\n"
     p = subprocess.run(exe_cmd, input=data, stdout=subprocess.PIPE, stderr=subprocess.PIPE, text=True,
                        timeout=timeout, cwd=cwd, env=ENV)
-    return p.stdout.splitlines(), p.returncode, p.stderr
+    out = p.stdout.split("\n")     # NOT splitlines(): U+0085/U+2028/U+2029 inside a JSON string are not line ends
+    if out and out[-1] == "":
+        out.pop()
+    return out, p.returncode, p.stderr
 
 
 def run_model(family, lines, timeout=900, extra_args=()):
